@@ -717,3 +717,14 @@ T('C08', 'mle-on-arrays-with-the-floor', [(GM, "            potentials[cl] = mar
 for _how, _id in (('AUGSPLIT', 'scalar-updates-spelled-out-tree'), ('ENUMIDX', 'loops-through-enumerate-tree')):
     for _p in ['C11', 'C12', 'C01', 'C02', 'C04', 'C05', 'C06', 'C07', 'C08', 'C09', 'C10', 'C13', 'C14', 'C15', 'C16', 'C18', 'C19', 'C20']:
         MUTANTS.append({'prop': _p, 'id': _id, 'kind': 'T', 'edits': _how})
+
+# ------------------------------------------------------------------ round 9: the rules added for its pairs
+K('C14', 'transpose-returns-a-broadcast-view', [(F, "        values = np.moveaxis(self.values, range(len(ax)), ax)\n        return Factor(newdom, values)\n",
+                                                   "        values = np.moveaxis(self.values, range(len(ax)), ax)\n        return Factor(newdom, np.broadcast_to(values, newdom.shape))\n")], 'results-writable')
+T('C14', 'transpose-copies-a-broadcast-view', [(F, "        values = np.moveaxis(self.values, range(len(ax)), ax)\n        return Factor(newdom, values)\n",
+                                                  "        values = np.moveaxis(self.values, range(len(ax)), ax)\n        return Factor(newdom, np.broadcast_to(values, newdom.shape).copy())\n")])
+K('C14', 'sum-mask-from-unmaterialised-request', [(F, "        axes = self.domain.axes(attrs)\n        values = np.sum(self.values, axis=axes) \n",
+                                                     "        axes = tuple(np.flatnonzero(np.isin(self.domain.attrs, attrs)).tolist())\n        values = np.sum(self.values, axis=axes) \n")], 'axis-by-name')
+T('C14', 'sum-mask-from-listed-request', [(F, "        axes = self.domain.axes(attrs)\n        values = np.sum(self.values, axis=axes) \n",
+                                             "        axes = tuple(np.flatnonzero(np.isin(self.domain.attrs, list(attrs))).tolist())\n        values = np.sum(self.values, axis=axes) \n")])
+
